@@ -1,6 +1,633 @@
 package main
 
-// replay: turn a solver model into a Go test against the real code (see replay_gen.go).
-func (e *Engine) replay(prop string, o *Obligation, seed int64) (string, bool) {
-	return writeReplayText(prop, o, "model found; replay generator not available for this input shape"), false
+// Replay and witness search: the executable form of a contract is run against the REAL function
+// (in-package test injected with `go test -overlay`, nothing is written to the repository).
+// Inputs: the solver's model (when there is one) followed by pseudo-random inputs (VERIF_SEED).
+// A candidate counts only if the real function panics or violates an executable postcondition.
+
+import (
+	_ "embed"
+	"encoding/json"
+	"fmt"
+	"go/ast"
+	"go/types"
+	"os"
+	"os/exec"
+	"path/filepath"
+	"sort"
+	"strings"
+	"time"
+)
+
+//go:embed replay_helper.go.txt
+var replayHelper string
+
+type tree struct {
+	Kind   string           `json:"k"`
+	V      string           `json:"v,omitempty"`
+	Elems  []*tree          `json:"e,omitempty"`
+	Fields map[string]*tree `json:"f,omitempty"`
+	Cap    int              `json:"c,omitempty"`
 }
+
+// modelView resolves SMT terms to model values, asking the solver in batches.
+type modelView struct {
+	eng   *Engine
+	o     *Obligation
+	vals  map[string]string
+	need  map[string]bool
+	fails int
+}
+
+func (m *modelView) get(term string) (string, bool) {
+	if n, ok := isNumLit(term); ok {
+		return n.String(), true
+	}
+	if term == "true" || term == "false" {
+		return term, true
+	}
+	if v, ok := m.vals[term]; ok {
+		return v, true
+	}
+	m.need[term] = true
+	return "", false
+}
+
+func normVal(s string) string {
+	s = strings.TrimSpace(s)
+	if strings.HasPrefix(s, "(- ") && strings.HasSuffix(s, ")") {
+		return "-" + strings.TrimSpace(s[3:len(s)-1])
+	}
+	return s
+}
+
+// refresh asks the solver for the needed terms, pinning everything already known.
+func (m *modelView) refresh() bool {
+	if len(m.need) == 0 {
+		return false
+	}
+	var terms []string
+	for t := range m.need {
+		terms = append(terms, t)
+	}
+	sort.Strings(terms)
+	var pins []string
+	var ks []string
+	for k := range m.vals {
+		ks = append(ks, k)
+	}
+	sort.Strings(ks)
+	for _, k := range ks {
+		v := m.vals[k]
+		if v == "true" || v == "false" {
+			if v == "true" {
+				pins = append(pins, k)
+			} else {
+				pins = append(pins, mkNot(k))
+			}
+			continue
+		}
+		if strings.HasPrefix(v, "-") {
+			v = "(- " + v[1:] + ")"
+		}
+		pins = append(pins, mkEq(k, v))
+	}
+	txt := m.eng.smtText(m.o, pins, terms)
+	file := strings.TrimSuffix(m.o.File, ".smt2") + ".model.smt2"
+	if m.o.File == "" {
+		file = filepath.Join(os.TempDir(), "govc-model.smt2")
+	}
+	os.WriteFile(file, []byte(txt), 0o644)
+	r := race(file, 10*time.Second)
+	m.need = map[string]bool{}
+	if r.status != "sat" {
+		m.fails++
+		return false
+	}
+	for k, v := range parseValues(r.out) {
+		v = normVal(v)
+		if _, ok := isNumLit(strings.TrimPrefix(v, "-")); ok || v == "true" || v == "false" {
+			m.vals[k] = v
+		}
+	}
+	return true
+}
+
+// treeOf builds the input description of value v (entry-state symbolic value) of type t.
+func (m *modelView) treeOf(s *State, v Val, t types.Type, depth int) *tree {
+	if depth > 4 {
+		return nil
+	}
+	switch v.K {
+	case KInt:
+		switch u := under(t).(type) {
+		case *types.Pointer:
+			p, ok := m.get(v.S)
+			if !ok {
+				return nil
+			}
+			if p == "0" {
+				return &tree{Kind: "nil"}
+			}
+			inner := s.loadPtr(u.Elem(), v.S)
+			return &tree{Kind: "ptr", Elems: []*tree{m.treeOf(s, inner, u.Elem(), depth+1)}}
+		case *types.Map, *types.Chan:
+			return &tree{Kind: "nil"}
+		}
+		x, ok := m.get(v.S)
+		if !ok {
+			return nil
+		}
+		return &tree{Kind: "int", V: x}
+	case KBool:
+		x, ok := m.get(v.S)
+		if !ok {
+			return nil
+		}
+		return &tree{Kind: "bool", V: x}
+	case KStr:
+		if v.S == "gs.empty" {
+			return &tree{Kind: "str"}
+		}
+		m.eng.usedUF["gs.len"] = true
+		ln, ok := m.get(app("gs.len", v.S))
+		if !ok {
+			return nil
+		}
+		n := atoiSafe(ln)
+		if n > 256 {
+			return nil
+		}
+		tr := &tree{Kind: "str"}
+		for i := 0; i < n; i++ {
+			b, ok := m.get(app("gs.at", v.S, numI(int64(i))))
+			if !ok {
+				b = "97"
+			}
+			tr.Elems = append(tr.Elems, &tree{Kind: "int", V: b})
+		}
+		return tr
+	case KSlice:
+		ref, ok1 := m.get(v.Ref)
+		ln, ok2 := m.get(v.Len)
+		cp, ok3 := m.get(v.Cap)
+		_, ok4 := m.get(v.Off)
+		if !ok1 || !ok2 || !ok3 || !ok4 {
+			return nil
+		}
+		if ref == "0" {
+			return &tree{Kind: "nil"}
+		}
+		n := atoiSafe(ln)
+		if n > 4096 {
+			return &tree{Kind: "toolarge"}
+		}
+		et := under(t).(*types.Slice).Elem()
+		tr := &tree{Kind: "slice", Cap: atoiSafe(cp)}
+		if tr.Cap > n+1024 {
+			tr.Cap = n + 1024
+		}
+		for i := 0; i < n; i++ {
+			ev := s.loadElem(et, v.Ref, mkAdd(v.Off, numI(int64(i))))
+			tr.Elems = append(tr.Elems, m.treeOf(s, ev, et, depth+1))
+		}
+		return tr
+	case KArr:
+		au := under(t).(*types.Array)
+		if au.Len() > 4096 {
+			return nil
+		}
+		tr := &tree{Kind: "arr"}
+		for i := int64(0); i < au.Len(); i++ {
+			x, ok := m.get(mkSel(v.S, numI(i)))
+			if !ok {
+				x = "0"
+			}
+			tr.Elems = append(tr.Elems, &tree{Kind: "int", V: x})
+		}
+		return tr
+	case KStruct:
+		st := under(t).(*types.Struct)
+		tr := &tree{Kind: "struct", Fields: map[string]*tree{}}
+		for i := 0; i < st.NumFields(); i++ {
+			f := st.Field(i)
+			if f.Name() == "_" {
+				continue
+			}
+			if sub := m.treeOf(s, v.Fs[i], f.Type(), depth+1); sub != nil {
+				tr.Fields[f.Name()] = sub
+			}
+		}
+		return tr
+	case KIface:
+		tag, ok := m.get(v.Tag)
+		if !ok {
+			return nil
+		}
+		if tag == "0" {
+			return &tree{Kind: "nil"}
+		}
+		// values of the pure interface methods observed in the obligation
+		tr := &tree{Kind: "iface", Fields: map[string]*tree{}}
+		dat, _ := m.get(v.Dat)
+		for name := range m.eng.dynUF {
+			if !strings.HasPrefix(name, "m$") {
+				continue
+			}
+			meth := strings.TrimSuffix(strings.TrimPrefix(name, "m$"), "$")
+			term := app(name, v.Tag, v.Dat, numI(int64(s.hv)))
+			if x, ok := m.get(term); ok {
+				tr.Fields[meth] = &tree{Kind: "int", V: x}
+			}
+		}
+		_ = dat
+		return tr
+	}
+	return nil
+}
+
+func atoiSafe(s string) int {
+	n := 0
+	fmt.Sscanf(s, "%d", &n)
+	return n
+}
+
+// replayInfo describes the function under replay.
+type replayInfo struct {
+	fn     *FnCtx
+	inputs []replayInput
+}
+
+type replayInput struct {
+	name string
+	val  Val
+	typ  types.Type
+}
+
+// genReplay writes the generated test and runs it. It returns the replay file, whether the real
+// code failed, and a short summary.
+func (e *Engine) genReplay(prop string, f *FnCtx, o *Obligation, model map[string]*tree, seed int64, iters int) (string, bool, string) {
+	if f == nil || f.decl == nil || f.sig == nil {
+		return "", false, "function is not replayable (func literal)"
+	}
+	imports := map[string]string{} // path -> name
+	bad := ""
+	qual := func(p *types.Package) string {
+		if p == f.pkg.Types {
+			return ""
+		}
+		imports[p.Path()] = p.Name()
+		return p.Name()
+	}
+	tstr := func(t types.Type) string {
+		s := types.TypeString(t, qual)
+		// unexported types of other packages cannot be named
+		return s
+	}
+	checkNameable := func(t types.Type) {
+		var walk func(t types.Type, d int)
+		walk = func(t types.Type, d int) {
+			if d > 6 {
+				return
+			}
+			switch u := types.Unalias(t).(type) {
+			case *types.Named:
+				if u.Obj().Pkg() != nil && u.Obj().Pkg() != f.pkg.Types && !u.Obj().Exported() {
+					bad = "unexported foreign type " + u.String()
+				}
+			case *types.Pointer:
+				walk(u.Elem(), d+1)
+			case *types.Slice:
+				walk(u.Elem(), d+1)
+			case *types.Array:
+				walk(u.Elem(), d+1)
+			case *types.Map:
+				walk(u.Key(), d+1)
+				walk(u.Elem(), d+1)
+			case *types.Signature:
+				for i := 0; i < u.Params().Len(); i++ {
+					walk(u.Params().At(i).Type(), d+1)
+				}
+				for i := 0; i < u.Results().Len(); i++ {
+					walk(u.Results().At(i).Type(), d+1)
+				}
+			case *types.TypeParam:
+				bad = "type parameter"
+			}
+		}
+		walk(t, 0)
+	}
+	var b strings.Builder
+	sig := f.sig
+	ct := f.contract
+	var decls, fills, envs, args []string
+	recvName := ""
+	if sig.Recv() != nil {
+		rt := sig.Recv().Type()
+		checkNameable(rt)
+		recvName = "recv"
+		if f.decl.Recv != nil && len(f.decl.Recv.List[0].Names) == 1 {
+			recvName = f.decl.Recv.List[0].Names[0].Name
+		}
+		if pt, ok := rt.(*types.Pointer); ok && !ct.Nilable {
+			decls = append(decls, fmt.Sprintf("\t\tgovcRecv := new(%s)", tstr(pt.Elem())))
+			fills = append(fills, fmt.Sprintf("\t\t\tif tr, ok := trees[%q]; ok && tr.Kind == \"ptr\" && len(tr.Elems) == 1 { govcSetTree(reflect.ValueOf(govcRecv).Elem(), (*govcTree)(tr.Elems[0])) }", recvName))
+			fills = append(fills, "\t\t\t_ = 0")
+			envs = append(envs, fmt.Sprintf("%q: reflect.ValueOf(&govcRecv).Elem()", recvName))
+			decls = append(decls, "\t\tgovcFillRecv := func() { govcFill(rng, reflect.ValueOf(govcRecv).Elem(), 3) }")
+		} else {
+			decls = append(decls, fmt.Sprintf("\t\tvar govcRecv %s", tstr(rt)))
+			fills = append(fills, fmt.Sprintf("\t\t\tgovcSetTree(reflect.ValueOf(&govcRecv).Elem(), (*govcTree)(trees[%q]))", recvName))
+			envs = append(envs, fmt.Sprintf("%q: reflect.ValueOf(&govcRecv).Elem()", recvName))
+			decls = append(decls, "\t\tgovcFillRecv := func() { govcFill(rng, reflect.ValueOf(&govcRecv).Elem(), 3) }")
+		}
+	}
+	for i := 0; i < sig.Params().Len(); i++ {
+		p := sig.Params().At(i)
+		checkNameable(p.Type())
+		vn := fmt.Sprintf("govcP%d", i)
+		decls = append(decls, fmt.Sprintf("\t\tvar %s %s", vn, tstr(p.Type())))
+		name := p.Name()
+		if name == "" || name == "_" {
+			name = vn
+		}
+		fills = append(fills, fmt.Sprintf("\t\t\tgovcSetTree(reflect.ValueOf(&%s).Elem(), (*govcTree)(trees[%q]))", vn, name))
+		envs = append(envs, fmt.Sprintf("%q: reflect.ValueOf(&%s).Elem()", name, vn))
+		if sig.Variadic() && i == sig.Params().Len()-1 {
+			args = append(args, vn+"...")
+		} else {
+			args = append(args, vn)
+		}
+	}
+	if bad != "" {
+		return "", false, "not replayable: " + bad
+	}
+	var rdecl, rnames, renv []string
+	for i := 0; i < sig.Results().Len(); i++ {
+		r := sig.Results().At(i)
+		checkNameable(r.Type())
+		vn := fmt.Sprintf("govcR%d", i)
+		rdecl = append(rdecl, fmt.Sprintf("\t\tvar %s %s", vn, tstr(r.Type())))
+		rnames = append(rnames, vn)
+		if r.Name() != "" && r.Name() != "_" {
+			renv = append(renv, fmt.Sprintf("\t\tenv.vars[%q] = reflect.ValueOf(&%s).Elem()", r.Name(), vn))
+		}
+		if i < len(ct.Results) {
+			renv = append(renv, fmt.Sprintf("\t\tenv.vars[%q] = reflect.ValueOf(&%s).Elem()", ct.Results[i], vn))
+		}
+		if sig.Results().Len() == 1 {
+			renv = append(renv, fmt.Sprintf("\t\tenv.vars[\"result\"] = reflect.ValueOf(&%s).Elem()", vn))
+		}
+	}
+	if bad != "" {
+		return "", false, "not replayable: " + bad
+	}
+	call := f.decl.Name.Name + "(" + strings.Join(args, ", ") + ")"
+	if sig.Recv() != nil {
+		call = "govcRecv." + call
+	}
+	if len(rnames) > 0 {
+		call = strings.Join(rnames, ", ") + " = " + call
+	}
+	// spec sources (after ==> rewriting)
+	var reqs, enss []string
+	for _, r := range ct.Requires {
+		reqs = append(reqs, rewriteImp(r.Src))
+	}
+	for _, en := range ct.Ensures {
+		enss = append(enss, rewriteImp(en.Src))
+	}
+	// inputs inside a recorded known-finding class are skipped: they are reported as KNOWN-FINDING, not again
+	for i := range e.known {
+		kf := &e.known[i]
+		if kf.Status == "known" && kf.Func == f.name && kf.Class != "" {
+			reqs = append(reqs, "!("+rewriteImp(kf.Class)+")")
+		}
+	}
+	macros := map[string]govcMacroJSON{}
+	for name, m := range e.db.Macros {
+		macros[name] = govcMacroJSON{Params: m.Params, Body: rewriteImp(m.Body.Src)}
+	}
+	// constants of the package mentioned in specs
+	consts := map[string]string{}
+	allSrc := strings.Join(append(append([]string{}, reqs...), enss...), " ")
+	for _, m := range macros {
+		allSrc += " " + m.Body
+	}
+	scope := f.pkg.Types.Scope()
+	for _, n := range scope.Names() {
+		if c, ok := scope.Lookup(n).(*types.Const); ok && strings.Contains(allSrc, n) {
+			if isIntegerType(c.Type()) || c.Type().Underlying().String() == "untyped int" {
+				consts[n] = c.Val().ExactString()
+			}
+		}
+	}
+	hints := ""
+	if hd, err := os.ReadFile(filepath.Join("/verif/replay_hints", strings.ReplaceAll(shortPkg(f.pkg.PkgPath), ".", "_")+".go.txt")); err == nil {
+		hints = string(hd)
+		for _, l := range strings.Split(hints, "\n") {
+			if strings.HasPrefix(l, "//import ") {
+				fs := strings.Fields(strings.TrimPrefix(l, "//import "))
+				if len(fs) == 2 {
+					imports[strings.Trim(fs[1], "\"")] = fs[0]
+				}
+			}
+		}
+	}
+	modelJSON, _ := json.Marshal(model)
+	helper := strings.Replace(replayHelper, "package PKGNAME", "package "+f.pkg.Types.Name(), 1)
+
+	fmt.Fprintf(&b, "// Code generated by GoVC: replay of obligation %s (property %s).\n", o.Name, prop)
+	fmt.Fprintf(&b, "// what: %s\n// at: %s\n", o.Desc, o.Pos)
+	fmt.Fprintf(&b, "package %s\n\nimport (\n\t\"encoding/json\"\n\t\"fmt\"\n\t\"math/big\"\n\t\"math/rand\"\n\t\"reflect\"\n\t\"testing\"\n", f.pkg.Types.Name())
+	var ips []string
+	for p := range imports {
+		ips = append(ips, p)
+	}
+	sort.Strings(ips)
+	for _, p := range ips {
+		fmt.Fprintf(&b, "\t%s %q\n", imports[p], p)
+	}
+	b.WriteString(")\n\nvar _ = big.NewInt\nvar _ = fmt.Sprint\n\n")
+	b.WriteString("var govcConsts = map[string]interface{}{\n")
+	var cns []string
+	for n := range consts {
+		cns = append(cns, n)
+	}
+	sort.Strings(cns)
+	for _, n := range cns {
+		fmt.Fprintf(&b, "\t%q: func() *big.Int { n, _ := new(big.Int).SetString(%q, 10); return n }(),\n", n, consts[n])
+	}
+	b.WriteString("}\n\n")
+	if hints == "" {
+		b.WriteString("var govcIfaceCands = map[string][]func(*rand.Rand) interface{}{}\nvar govcIfaceFromModel = map[string]func(*govcTree) interface{}{}\n\n")
+	} else {
+		b.WriteString(hints + "\n")
+	}
+	fmt.Fprintf(&b, "func TestGovcReplay(t *testing.T) {\n")
+	fmt.Fprintf(&b, "\tvar spec govcSpec\n\tjson.Unmarshal([]byte(%q), &spec)\n", mustJSON(map[string]interface{}{"Requires": reqs, "Ensures": enss, "Macros": macros}))
+	fmt.Fprintf(&b, "\tvar trees map[string]*govcTree\n\tjson.Unmarshal([]byte(%q), &trees)\n", string(modelJSON))
+	fmt.Fprintf(&b, "\trng := rand.New(rand.NewSource(%d))\n\ttried, unsupported := 0, map[string]bool{}\n", seed)
+	fmt.Fprintf(&b, "\tfor it := 0; it < %d; it++ {\n", iters)
+	b.WriteString(strings.Join(decls, "\n") + "\n")
+	b.WriteString("\t\tif it == 0 && len(trees) > 0 {\n" + strings.Join(fills, "\n") + "\n\t\t} else {\n")
+	if sig.Recv() != nil {
+		b.WriteString("\t\t\tgovcFillRecv()\n")
+	}
+	for i := 0; i < sig.Params().Len(); i++ {
+		fmt.Fprintf(&b, "\t\t\tgovcFill(rng, reflect.ValueOf(&govcP%d).Elem(), 3)\n", i)
+	}
+	b.WriteString("\t\t}\n")
+	if sig.Recv() != nil {
+		b.WriteString("\t\t_ = govcFillRecv\n")
+	}
+	fmt.Fprintf(&b, "\t\tenv := &govcEnv{vars: map[string]reflect.Value{%s}, macros: spec.Macros}\n", strings.Join(envs, ", "))
+	b.WriteString(`		ok := true
+		for _, r := range spec.Requires {
+			res, uns := govcEvalBool(r, env)
+			if uns != "" {
+				unsupported["requires: "+uns] = true
+				ok = false
+			} else if !res {
+				ok = false
+			}
+		}
+		if !ok {
+			continue
+		}
+		tried++
+		inputs := ""
+		for k, v := range env.vars {
+			inputs += fmt.Sprintf("\n    %s = %s", k, govcShow(v))
+		}
+		old := &govcEnv{vars: map[string]reflect.Value{}, macros: spec.Macros}
+		seen := map[uintptr]reflect.Value{}
+		for k, v := range env.vars {
+			c := reflect.New(v.Type()).Elem()
+			c.Set(govcDeepCopy(v, seen))
+			old.vars[k] = c
+		}
+		env.old = old
+`)
+	b.WriteString(strings.Join(rdecl, "\n") + "\n")
+	b.WriteString("\t\tvar pan interface{}\n\t\tfunc() {\n\t\t\tdefer func() { pan = recover() }()\n\t\t\t" + call + "\n\t\t}()\n")
+	b.WriteString("\t\tif pan != nil {\n\t\t\tt.Fatalf(\"GOVC-WITNESS iteration=%d: the real function panicked: %v\\n  inputs:%s\", it, pan, inputs)\n\t\t}\n")
+	b.WriteString(strings.Join(renv, "\n") + "\n")
+	for i := range rnames {
+		fmt.Fprintf(&b, "\t\t_ = govcR%d\n", i)
+	}
+	b.WriteString(`		for _, en := range spec.Ensures {
+			res, uns := govcEvalBool(en, env)
+			if uns != "" {
+				unsupported["ensures: "+uns] = true
+				continue
+			}
+			if !res {
+				outs := ""
+				for k, v := range env.vars {
+					outs += fmt.Sprintf("\n    %s = %s", k, govcShow(v))
+				}
+				t.Fatalf("GOVC-WITNESS iteration=%d: the real function violates the postcondition\n  %s\n  inputs (before the call):%s\n  state after the call:%s", it, en, inputs, outs)
+			}
+		}
+	}
+	for u := range unsupported {
+		t.Logf("GOVC-NOTE not evaluated: %s", u)
+	}
+	t.Logf("GOVC-TRIED %d inputs satisfying the precondition", tried)
+}
+`)
+	// write and run
+	dir := filepath.Join(replayDir(), "work")
+	os.MkdirAll(dir, 0o755)
+	base := fmt.Sprintf("%s_%s", prop, sanitize(o.Name))
+	testFile := filepath.Join(replayDir(), base+"_replay_test.go.txt")
+	os.WriteFile(testFile, []byte(b.String()), 0o644)
+	helperFile := filepath.Join(dir, base+"_helper_test.go")
+	os.WriteFile(helperFile, []byte(helper), 0o644)
+	pkgDir := filepath.Join(repoRoot(), strings.TrimPrefix(f.pkg.PkgPath, "github.com/gotd/td/"))
+	if f.pkg.PkgPath == "github.com/gotd/td" {
+		pkgDir = repoRoot()
+	}
+	ov := map[string]map[string]string{"Replace": {
+		filepath.Join(pkgDir, "zz_govc_replay_test.go"): testFile,
+		filepath.Join(pkgDir, "zz_govc_helper_test.go"): helperFile,
+	}}
+	ovFile := filepath.Join(dir, base+"_overlay.json")
+	os.WriteFile(ovFile, []byte(mustJSON(ov)), 0o644)
+	cmd := exec.Command("bash", "-c", fmt.Sprintf("ulimit -v 6000000; cd %s && go test -mod=mod -overlay %s -vet=off -count=1 -timeout 90s -run '^TestGovcReplay$' ./%s 2>&1 | tail -60",
+		repoRoot(), ovFile, strings.TrimPrefix(strings.TrimPrefix(pkgDir, repoRoot()), "/")))
+	cmd.Env = append(os.Environ(), "GOFLAGS=-mod=mod", "GOPROXY=off")
+	out, _ := cmd.CombinedOutput()
+	os.Remove(helperFile)
+	os.Remove(ovFile)
+	res := string(out)
+	reproduced := strings.Contains(res, "GOVC-WITNESS")
+	summary := "real function passed all executable checks"
+	if reproduced {
+		summary = "REPRODUCED on the real code"
+	} else if strings.Contains(res, "[build failed]") || strings.Contains(res, "cannot ") && !strings.Contains(res, "GOVC-TRIED") {
+		summary = "replay test did not build"
+	}
+	// the replay file: header + command + output + generated test
+	var rp strings.Builder
+	fmt.Fprintf(&rp, "// GoVC replay for property %s\n// obligation: %s (%s)\n// at: %s\n// what: %s\n// solver status: %s (%s)\n// replay result: %s\n", prop, o.Name, o.Kind, o.Pos, o.Desc, o.Status, o.Solver, summary)
+	fmt.Fprintf(&rp, "// to re-run: copy this file to %s/zz_govc_replay_test.go together with /verif/govc/replay_helper.go.txt (package clause adjusted) and run\n//   go test -vet=off -run TestGovcReplay ./%s\n", pkgDir, strings.TrimPrefix(strings.TrimPrefix(pkgDir, repoRoot()), "/"))
+	rp.WriteString("/* output of the run:\n" + strings.ReplaceAll(res, "*/", "* /") + "\n*/\n\n")
+	rp.WriteString(b.String())
+	os.WriteFile(testFile, []byte(rp.String()), 0o644)
+	return testFile, reproduced, summary
+}
+
+type govcMacroJSON struct {
+	Params []string
+	Body   string
+}
+
+func mustJSON(v interface{}) string {
+	b, _ := json.Marshal(v)
+	return string(b)
+}
+
+// replay: turn a solver model into inputs, then run the generated test (model input first, then
+// random inputs) against the real code.
+func (e *Engine) replay(prop string, o *Obligation, seed int64) (string, bool) {
+	f := e.topFns[o.Fn]
+	if f == nil {
+		return writeReplayText(prop, o, "no replay: not a function obligation"), false
+	}
+	var model map[string]*tree
+	if o.Status == "sat" && f.entry != nil {
+		mv := &modelView{eng: e, o: o, vals: map[string]string{}, need: map[string]bool{}}
+		for k, v := range o.Model {
+			mv.vals[k] = normVal(v)
+		}
+		for round := 0; round < 6; round++ {
+			model = map[string]*tree{}
+			for _, in := range f.replayInputs {
+				if t := mv.treeOf(f.entry, in.val, in.typ, 0); t != nil {
+					model[in.name] = t
+				}
+			}
+			if !mv.refresh() {
+				break
+			}
+		}
+	}
+	file, ok, summary := e.genReplay(prop, f, o, model, seed, 3000)
+	if file == "" {
+		return writeReplayText(prop, o, "model found; "+summary), false
+	}
+	_ = summary
+	return file, ok
+}
+
+// witnessSearch runs the executable contract of a function on pseudo-random inputs (used when the
+// verifier cannot speak about the function: out of subset, or unevaluable contract).
+func (e *Engine) witnessSearch(prop string, f *FnCtx, seed int64) (string, bool, string) {
+	o := &Obligation{Name: f.name + "#witness-search", Kind: "witness", Fn: f.name, Pos: posStr(e.fset, f.body.Pos()),
+		Desc: "executable contract on pseudo-random inputs (function could not be verified deductively)", Status: "undecided"}
+	return e.genReplay(prop, f, o, nil, seed, 20000)
+}
+
+var _ = ast.Inspect
